@@ -56,9 +56,26 @@ let dump (s : Labels.state) : string =
       (match re.Labels.rl_target with None -> "-" | Some t -> string_of_int (int_of_nat t)))) s.Labels.relocs;
   Buffer.contents b
 
+let hex_of_bytes (bs : Labels.z list) : string =
+  let b = Buffer.create 256 in
+  List.iter (fun v -> Buffer.add_string b (Printf.sprintf "%02x" (Z.to_int (z_of_cz v)))) bs;
+  if Buffer.length b = 0 then "-" else Buffer.contents b
+
 let () =
   let st = ref Labels.init in
-  let answer (s', e) =
+  (* the FLAT byte-buffer model (Labels.FlatModel, proven to run in lock step with the structured one) is executed alongside when the
+     program was started with PF: its error / size / count must equal the structured model's on every operation, its bytes are dumped *)
+  let fl = ref None in
+  let fmis = ref 0 in
+  let run_op (o : Labels.op) =
+    let (s', e) = Labels.step !st o in
+    (match !fl with
+     | Some f ->
+       let (f', e') = Labels.fstep f o in
+       fl := Some f';
+       if e' <> e || f'.Labels.f_unresolved <> s'.Labels.unresolved
+          || List.length (Labels.f_cur_sec f') <> Z.to_int (z_of_cz (Labels.cur_sec s').Labels.s_len) then incr fmis
+     | None -> ());
     st := s';
     Printf.printf "%s %d %s %s\n" (err_name e) (int_of_nat s'.Labels.cur)
       (string_of_cz (Labels.cur_sec s').Labels.s_len) (string_of_cz s'.Labels.unresolved) in
@@ -69,24 +86,27 @@ let () =
       let toks = List.filter (fun s -> s <> "") (String.split_on_char ' ' (String.trim line)) in
       (try
         match toks with
-        | ["P"] -> st := Labels.init; print_endline "P"
-        | ["NL"] -> answer (Labels.step !st Labels.ONewLabel)
-        | ["NS"] -> answer (Labels.step !st Labels.ONewSection)
-        | ["S"; k] -> answer (Labels.step !st (Labels.OSection (nat_of_int (int_of_string k))))
-        | ["RAW"; h] -> answer (Labels.step !st (Labels.ORaw (bytes_of_hex h)))
-        | ["GAP"; n] -> answer (Labels.step !st (Labels.OGap (cz_of_string n)))
+        | ["P"] -> st := Labels.init; fl := None; fmis := 0; print_endline "P"
+        | ["PF"] -> st := Labels.init; fl := Some Labels.finit; fmis := 0; print_endline "P"
+        | ["NL"] -> run_op Labels.ONewLabel
+        | ["NS"] -> run_op Labels.ONewSection
+        | ["S"; k] -> run_op ((Labels.OSection (nat_of_int (int_of_string k))))
+        | ["RAW"; h] -> run_op ((Labels.ORaw (bytes_of_hex h)))
+        | ["GAP"; n] -> run_op ((Labels.OGap (cz_of_string n)))
         | ["REF"; k; rel; l; pre; w0; post] ->
-          answer (Labels.step !st (Labels.ORef (kind_of_string k, cz_of_string rel, nat_of_int (int_of_string l),
+          run_op ((Labels.ORef (kind_of_string k, cz_of_string rel, nat_of_int (int_of_string l),
                                                 bytes_of_hex pre, cz_of_string w0, bytes_of_hex post)))
-        | ["BIND"; l] -> answer (Labels.step !st (Labels.OBind (nat_of_int (int_of_string l))))
+        | ["BIND"; l] -> run_op ((Labels.OBind (nat_of_int (int_of_string l))))
         | ["ABS"; l; size; addend; pre; post] ->
-          answer (Labels.step !st (Labels.OAbsRef (nat_of_int (int_of_string l), cz_of_string size, cz_of_string addend,
+          run_op ((Labels.OAbsRef (nat_of_int (int_of_string l), cz_of_string size, cz_of_string addend,
                                                    bytes_of_hex pre, bytes_of_hex post)))
         | ["DELTA"; l; bl; size] ->
-          answer (Labels.step !st (Labels.ODelta (nat_of_int (int_of_string l), nat_of_int (int_of_string bl), cz_of_string size)))
+          run_op ((Labels.ODelta (nat_of_int (int_of_string l), nat_of_int (int_of_string bl), cz_of_string size)))
+        | ["DELTAC"; l; bl; size] ->
+          run_op ((Labels.ODeltaChecked (nat_of_int (int_of_string l), nat_of_int (int_of_string bl), cz_of_string size)))
         | ["RESOLVE"; offs] ->
           let offs = if offs = "-" then [] else List.map cz_of_string (String.split_on_char ',' offs) in
-          answer (Labels.step !st (Labels.OResolve offs))
+          run_op ((Labels.OResolve offs))
         | ["FORM"; h8; h32; fs; fl; s8; s32; ip; tgt] ->
           print_endline (match Labels.x86_branch_form (b h8) (b h32) (b fs) (b fl) (cz_of_string s8) (cz_of_string s32)
                                  (cz_of_string ip) (cz_of_string tgt) with
@@ -96,7 +116,15 @@ let () =
                          | Some Labels.FShort -> "short" | Some Labels.FLong -> "long" | None -> "none")
         | ["RIPF"; disp; imm; lo; hole] ->
           print_endline (string_of_cz (Labels.x64_rip_field (cz_of_string disp) (cz_of_string imm) (cz_of_string lo) (cz_of_string hole)))
-        | ["DUMP"] -> print_endline (dump !st)
+        | ["DUMP"] ->
+          (match !fl with
+           | None -> print_endline (dump !st)
+           | Some f ->
+             let b = Buffer.create 1024 in
+             Buffer.add_string b (dump !st);
+             Buffer.add_string b (Printf.sprintf " | FLAT %d %s" !fmis (string_of_cz f.Labels.f_unresolved));
+             List.iteri (fun i bs -> Buffer.add_string b (Printf.sprintf " | FSEC %d %s" i (hex_of_bytes bs))) f.Labels.f_secs;
+             print_endline (Buffer.contents b))
         | _ -> print_endline "BAD"
       with Failure m -> print_endline ("BAD " ^ m) | Invalid_argument m -> print_endline ("BAD " ^ m))
     done
